@@ -331,7 +331,8 @@ class RegexConstraint(Constraint):
         """Compile regex pattern once."""
         try:
             self._compiled = re.compile(self.pattern)
-        except re.error as e:
+        except (re.error, OverflowError, RecursionError) as e:
+            # re.compile raises OverflowError for a{99999999999} and RecursionError for very deep groups
             raise ValueError(f"Invalid regex pattern '{self.pattern}': {e}") from e
 
     def evaluate(self, value: Any, path: str = "") -> ValidationResult:
